@@ -218,6 +218,29 @@ def proc_class():
     return _PROC_CLASS
 
 
+_STEP_CLASS = None
+
+
+def step_class():
+    """the same as a Step (every other process of a generated compartment is a step: `get_steps()` side of an
+    inheriting division)"""
+    global _STEP_CLASS
+    if _STEP_CLASS is None:
+        from vivarium.core.process import Step
+
+        class RegStep(Step):
+            defaults = {'pid': 'p', 'ports': {'d': []}}
+
+            def ports_schema(self):
+                return dec_schema(self.parameters['ports'])
+
+            def next_update(self, timestep, states):
+                return {}
+
+        _STEP_CLASS = RegStep
+    return _STEP_CLASS
+
+
 def build_procs(j):
     """encoded process tree (leaves {"__proc__": {pid, ports, topo}}) -> (processes, topology)"""
     procs, topo = {}, {}
@@ -225,7 +248,8 @@ def build_procs(j):
         inner = dict((kk, vv) for kk, vv in v['d']) if isinstance(v, dict) and 'd' in v else {}
         if list(inner.keys()) == ['__proc__']:
             spec = dict(inner['__proc__']['d'])
-            procs[k] = proc_class()({'pid': spec['pid'], 'ports': spec['ports']})
+            cls = step_class() if str(spec['pid'])[-1:] in '13579' else proc_class()
+            procs[k] = cls({'pid': spec['pid'], 'ports': spec['ports']})
             topo[k] = {p: dec2(path, tuples=True) for p, path in spec['topo']['d']}
         else:
             procs[k], topo[k] = build_procs(v)
